@@ -35,6 +35,34 @@ func pw(sym string) string {
 	return r
 }
 
+// sizedPW builds a password of exactly n bytes starting with first: ASCII, or mostly two-byte UTF-8 letters (NFKC-stable).
+func sizedPW(n int, multiByte bool, first byte) string {
+	b := []byte{first}
+	for i := 0; len(b) < n; i++ {
+		if multiByte && len(b)+2 <= n {
+			b = append(b, []byte([]string{"é", "ж", "ö"}[i%3])...)
+		} else {
+			b = append(b, "0123456789"[i%10])
+		}
+	}
+	return string(b)
+}
+
+// pw realises a symbolic password for this history: "a" and "b" by the realisation the model chose (they differ in
+// their first byte - letter case - whatever their length), the others by the fixed table.
+func (c *hcase) pw(sym string) string {
+	switch sym {
+	case "a":
+		return sizedPW(c.La, c.MBa, 'a')
+	case "b":
+		return sizedPW(c.Lb, c.MBb, 'A')
+	}
+	return pw(sym)
+}
+
+// akey identifies algorithm and realisation (the root of a family of histories).
+func (c *hcase) akey() string { return fmt.Sprintf("%s#r%d", c.Alg, c.Real) }
+
 type hstep struct {
 	Op  string `json:"op"`
 	Alg string `json:"alg"`
@@ -61,6 +89,11 @@ type hprobe struct {
 
 type hcase struct {
 	Alg   string   `json:"alg"`
+	Real  int      `json:"real"` // password realisation (Sec!PwLens): byte lengths and kind of the passwords "a" and "b"
+	La    int      `json:"la"`
+	Lb    int      `json:"lb"`
+	MBa   bool     `json:"mba"`
+	MBb   bool     `json:"mbb"`
 	Steps []hstep  `json:"steps"`
 	Out   string   `json:"out"`
 	Post  hdoc     `json:"post"`
@@ -71,6 +104,9 @@ type hcase struct {
 
 type hmism struct {
 	Alg   string  `json:"alg"`
+	Real  int     `json:"real"`
+	PwA   string  `json:"pw_a"`
+	PwB   string  `json:"pw_b"`
 	Steps []hstep `json:"steps"`
 	What  string  `json:"what"`
 	Want  any     `json:"want"`
@@ -110,7 +146,8 @@ func sourceDoc(alg string) []byte {
 }
 
 // runStep applies one step of the model through the real *File API. out == "" means in place.
-func runStep(s hstep, in, out string) error {
+func runStep(c *hcase, s hstep, in, out string) error {
+	pw := c.pw
 	u, o := pw(s.U), pw(s.O)
 	switch s.Op {
 	case "Encrypt":
@@ -151,7 +188,7 @@ func (r *c25run) fail(c *hcase, what string, want, got any) {
 	}
 	r.bad++
 	if r.bad <= 300 {
-		r.w.Put(hmism{c.Alg, c.Steps, what, want, got})
+		r.w.Put(hmism{c.Alg, c.Real, c.pw("a"), c.pw("b"), c.Steps, what, want, got})
 	}
 }
 
@@ -170,6 +207,7 @@ func pagesEq(a, b []proj.Page) bool {
 
 // probe opens file with every password pair of the case and compares class, content and reported permissions.
 func (r *c25run) probe(c *hcase, file string) {
+	pw := c.pw
 	permSeen := false
 	counted := len(c.Steps) > 1 || r.primary
 	for _, p := range c.Opens {
@@ -236,9 +274,9 @@ func (r *c25run) visit(c *hcase, parent string) {
 		if err := os.WriteFile(child, before, 0o644); err != nil {
 			h.Die("write: %v", err)
 		}
-		opErr = runStep(s, child, "")
+		opErr = runStep(c, s, child, "")
 	} else {
-		opErr = runStep(s, parent, child)
+		opErr = runStep(c, s, parent, child)
 	}
 	got := cls(opErr)
 	if got != c.Out {
@@ -262,7 +300,7 @@ func (r *c25run) visit(c *hcase, parent string) {
 		}
 		os.Remove(child)
 		if len(c.kids) > 0 {
-			h.Die("model continued a history after a refused step: %s", stepsKey(c.Alg, c.Steps))
+			h.Die("model continued a history after a refused step: %s", stepsKey(c.akey(), c.Steps))
 		}
 		return
 	}
@@ -270,7 +308,7 @@ func (r *c25run) visit(c *hcase, parent string) {
 		r.okSteps++
 	}
 	if len(c.Steps) > 1 {
-		r.changed[stepsKey(c.Alg, c.Steps)] = true
+		r.changed[stepsKey(c.akey(), c.Steps)] = true
 	}
 	r.probe(c, child)
 	for _, k := range c.kids {
@@ -289,10 +327,7 @@ func c25split(in, prefix string, n int) {
 	total := 0
 	err := h.EachLine(in, func(line []byte) error {
 		total++
-		var c struct {
-			Alg   string  `json:"alg"`
-			Steps []hstep `json:"steps"`
-		}
+		var c hcase
 		if err := json.Unmarshal(line, &c); err != nil {
 			return err
 		}
@@ -303,7 +338,7 @@ func c25split(in, prefix string, n int) {
 			return nil
 		}
 		hh := fnv.New32a()
-		hh.Write([]byte(stepsKey(c.Alg, c.Steps[:2])))
+		hh.Write([]byte(stepsKey(c.akey(), c.Steps[:2])))
 		ws[int(hh.Sum32()%uint32(n))].Put(json.RawMessage(line))
 		return nil
 	})
@@ -334,7 +369,7 @@ func c25(in, out string, shard, of int) {
 		if err := json.Unmarshal(line, c); err != nil {
 			return err
 		}
-		byKey[stepsKey(c.Alg, c.Steps)] = c
+		byKey[stepsKey(c.akey(), c.Steps)] = c
 		all = append(all, c)
 		return nil
 	})
@@ -347,9 +382,9 @@ func c25(in, out string, shard, of int) {
 			roots = append(roots, c)
 			continue
 		}
-		p := byKey[stepsKey(c.Alg, c.Steps[:len(c.Steps)-1])]
+		p := byKey[stepsKey(c.akey(), c.Steps[:len(c.Steps)-1])]
 		if p == nil {
-			h.Die("case without its prefix: %s", stepsKey(c.Alg, c.Steps))
+			h.Die("case without its prefix: %s", stepsKey(c.akey(), c.Steps))
 		}
 		p.kids = append(p.kids, c)
 	}
@@ -370,6 +405,9 @@ func c25(in, out string, shard, of int) {
 		r.orig[c.Alg] = pages
 	}
 	for _, c := range roots {
+		if !r.primary && len(c.kids) == 0 {
+			continue // a length-1 history none of whose continuations belongs to this shard (shard 0 judges it)
+		}
 		r.visit(c, srcs[c.Alg])
 	}
 	h.Summary(map[string]any{"lines": total, "cases": r.n, "mismatches": r.bad, "probes": r.probes, "ok_steps": r.okSteps,
